@@ -51,7 +51,9 @@ func (s *verifDownSink) Close() { s.closed = true }
 
 type verifDownReceiver struct{ sink *verifDownSink }
 
-func (r *verifDownReceiver) NewSink(addr string, n base.ClientNumber) base.BufferReceiverSink { return r.sink }
+func (r *verifDownReceiver) NewSink(addr string, n base.ClientNumber) base.BufferReceiverSink {
+	return r.sink
+}
 
 // VerifC01_ParsingSinkHandsOver: every line the parser accepts is handed to the
 // next stage exactly once, in order, no later than the next Flush; after the
@@ -134,7 +136,9 @@ func (o *verifOutput) FlushBuffer() *base.LogChunk {
 	return &base.LogChunk{ID: "x", Data: data}
 }
 
-func (o *verifOutput) accept(c base.LogChunk) { o.accepted = append(o.accepted, []string{string(c.Data)}) }
+func (o *verifOutput) accept(c base.LogChunk) {
+	o.accepted = append(o.accepted, []string{string(c.Data)})
+}
 
 // VerifC01_WorkerConservesRecords: a batch of records through the real worker
 // (onInput / onStop) with a dropping transform and two outputs: every record
